@@ -101,6 +101,9 @@ def _suitable(fn: ast.FunctionDef) -> bool:
       return False
   if n_stmts > _MAX_HELPER_STMTS:
     return False
+  # continuation sinking duplicates code when both branches of a returning `if` fall through: keep it small
+  if sum(1 for x in ast.walk(fn) if isinstance(x, ast.If) and _has_return_in(x)) > 8:
+    return False
   # recursion
   for x in ast.walk(fn):
     if isinstance(x, ast.Call):
@@ -137,10 +140,13 @@ def _to_tail(stmts: List[ast.stmt]) -> List[ast.stmt]:
       rest = stmts[i + 1:]
       body = _to_tail(list(st.body))
       orelse = _to_tail(list(st.orelse))
-      if not _always_returns(body):
-        body = body + _to_tail(copy.deepcopy(rest))
-      if not _always_returns(orelse):
-        orelse = orelse + _to_tail(copy.deepcopy(rest))
+      need_b, need_o = not _always_returns(body), not _always_returns(orelse)
+      if need_b or need_o:
+        tail_rest = _to_tail(rest)
+        if need_b:
+          body = body + tail_rest
+        if need_o:
+          orelse = orelse + (copy.deepcopy(tail_rest) if need_b else tail_rest)
       new = ast.If(test=st.test, body=body or [ast.Pass()], orelse=orelse)
       ast.copy_location(new, st)
       out.append(new)
@@ -437,10 +443,64 @@ class _Inliner:
     return out or [ast.copy_location(ast.Pass(), st)]
 
 
+# --------------------------------------------------------------------------- alias propagation
+def _propagate_param_aliases(fn: ast.FunctionDef) -> int:
+  """`x = <param>.<a>.<b>` at the top level of a function, x never re-bound, the parameter never re-bound:
+  every later load of x is replaced by the attribute chain (hoisted request fields are put back)."""
+  params = {a.arg for a in fn.args.args + fn.args.kwonlyargs} - {'self', 'cls'}
+  if not params:
+    return 0
+  stores: Dict[str, int] = {}
+  for x in ast.walk(fn):
+    if isinstance(x, ast.Name) and isinstance(x.ctx, (ast.Store, ast.Del)):
+      stores[x.id] = stores.get(x.id, 0) + 1
+    elif isinstance(x, ast.arg) and x is not None:
+      pass
+  # nested functions/lambdas/comprehensions may shadow: be conservative and skip names bound there
+  n = 0
+  for i, st in enumerate(fn.body):
+    if not (isinstance(st, ast.Assign) and len(st.targets) == 1 and isinstance(st.targets[0], ast.Name)):
+      continue
+    x = st.targets[0].id
+    v = st.value
+    root = v
+    depth = 0
+    while isinstance(root, ast.Attribute):
+      root = root.value
+      depth += 1
+    if not (isinstance(root, ast.Name) and root.id in params and depth >= 1 and stores.get(x, 0) == 1 and stores.get(root.id, 0) == 0):
+      continue
+    if x in params:
+      continue
+    # only value-like aliases: the local is never the base of a store, a subscript or a method call
+    objectish = False
+    for y in ast.walk(fn):
+      if isinstance(y, (ast.Attribute, ast.Subscript)):
+        b = y.value
+        if isinstance(b, ast.Name) and b.id == x:
+          objectish = True
+    if objectish:
+      continue
+
+    class R(ast.NodeTransformer):
+      def visit_Name(self, node):
+        if node.id == x and isinstance(node.ctx, ast.Load):
+          nonlocal n
+          n += 1
+          return ast.copy_location(copy.deepcopy(v), node)
+        return node
+    for later in fn.body[i + 1:]:
+      R().visit(later)
+  return n
+
+
 def normalise(tree: ast.Module, exclude: Optional[Set[str]] = None) -> int:
   """Inlines suitable private helpers in place; returns the number of inlined call sites."""
   ex = anchors() if exclude is None else exclude
   inl = _Inliner(tree, ex)
   n = inl.run()
+  for x in ast.walk(tree):
+    if isinstance(x, ast.FunctionDef):
+      n += _propagate_param_aliases(x)
   tree._vz_inlined = dict(inl.names)  # type: ignore[attr-defined]
   return n
